@@ -36,7 +36,7 @@ NS = 5
 
 def target(c, seed):
     d = len(c['shape'])
-    cores = space.tt(c['shape'], [1] + [c['rho']] * (d - 1) + [1], c['pat'], seed, tag=13)
+    cores = space.tt(c['shape'], c.get('ranks') or [1] + [c['rho']] * (d - 1) + [1], c['pat'], seed, tag=13)
     return ref.dense(cores) * float(c.get('mag', 1.0))
 
 
@@ -59,7 +59,7 @@ def true_ranks(T):
 
 def run(c, seed, T, nswp, cache, vld, cb=None, m=None, **more):
     d = len(c['shape'])
-    Y0 = space.tt(c['shape'], [1] + [c['r0']] * (d - 1) + [1], 'gen', seed, tag=29)
+    Y0 = space.tt(c['shape'], c.get('r0s') or [1] + [c['r0']] * (d - 1) + [1], 'gen', seed, tag=29)
     b0 = ref.core_bytes(Y0)
     f = RecordingObjective(T, ret=c.get('ret', 'float64'))
     ca = RecordingCache() if cache else None
@@ -108,7 +108,7 @@ def check_config(c):
         # the maxvol pre-iteration only re-parametrises the initial approximation: "the tensor of the previous sweep" of
         # sweep 1 is Y0 itself, and the first convergence value is the distance to it
         d = len(shape)
-        Y0 = space.tt(shape, [1] + [c['r0']] * (d - 1) + [1], 'gen', seed, tag=29)
+        Y0 = space.tt(shape, c.get('r0s') or [1] + [c['r0']] * (d - 1) + [1], 'gen', seed, tag=29)
         D0 = ref.dense(Y0)
         n0 = float(np.linalg.norm(D0))
         dv = float(np.linalg.norm(ref.dense(Ypre) - D0))
@@ -279,5 +279,10 @@ def strata(tier, seed):
         for r0 in (1, 2):
             for dr in ((1, 1), (1, 2), (2, 2)):
                 cs.append(dict(shape=sh, rho=rho, pat='gen', r0=r0, dr=list(dr), seed=seed, prefix_runs=[]))
+    # ranks that differ from bond to bond, in the target and in the initial approximation; mode sizes that differ from mode to mode
+    for sh, rk in (([3, 4, 3, 2], [1, 2, 3, 2, 1]), ([4, 3, 5], [1, 3, 2, 1]), ([2, 5, 3], [1, 2, 3, 1]), ([3, 3, 3, 3], [1, 1, 3, 1, 1]), ([4, 2, 4, 2, 3], [1, 2, 2, 3, 2, 1])):
+        for r0s in ([1] + [1] * (len(sh) - 1) + [1], [1] + [1 + (k % 2) for k in range(len(sh) - 1)] + [1], [1] + [2 - (k % 2) for k in range(len(sh) - 1)] + [1]):
+            for dr in ((0, 0), (1, 1), (1, 2)):
+                cs.append(dict(shape=sh, rho=max(rk), ranks=rk, pat='gen', r0=max(r0s), r0s=r0s, dr=list(dr), seed=seed, prefix_runs=[1, 3] if tier == 'quick' else [1, 2, 3, 4]))
     yield Stratum('configurations', cs, 'config', size=len(cs), chunk=2,
                   bounds={'sweeps': NS, 'shapes': len(shapes), 'rho': rhos, 'r0': '1..rho+1', 'dr': [list(x) for x in drs]})
